@@ -24,6 +24,7 @@ type Item struct {
 	Samples  int    `json:"samples"`
 	Seed     int    `json:"seed"`
 	NoPure   bool   `json:"no_pure"`
+	SolverMs int    `json:"solver_ms"`
 	Trace    bool   `json:"trace"`
 }
 
@@ -114,6 +115,9 @@ func runItem(P *Program, it Item) (res *ItemResult) {
 	}
 	m.sampleMax = it.Samples
 	m.maxPaths = it.MaxPaths
+	if it.SolverMs > 0 {
+		m.sol.send(fmt.Sprintf("(set-option :timeout %d)", it.SolverMs))
+	}
 	if it.Seed != 0 {
 		m.sol.send(fmt.Sprintf("(set-option :random-seed %d)", it.Seed))
 	}
